@@ -1075,7 +1075,7 @@ def run(tier):
                             rmeta.append((mi, proto, data, tls))
                 worlds.append({"op": "gm_world", "tree": tree, "config": ZCONFIG, "maps": [m["selector"] for m in meta],
                                "requests": reqs, "_meta": meta, "_rmeta": rmeta, "_stream": stream, "_zip": ZIPSEL,
-                               "_existing": members, "_abs": None})
+                               "_existing": members, "_outside": existing_selectors(tree), "_abs": None})
     finally:
         GEN_PREFIX[0] = b""
     import time as _time
@@ -1099,6 +1099,8 @@ def run(tier):
     for wn, (w, r) in enumerate(zip(worlds, wres)):
         P = "w%d_" % wn             # names are unique per world so that several worlds can share one shard file
         pre = ["Definition %sex : list str := %s." % (P, coq_list([coq_str(s) for s in w["_existing"]]))]
+        if w["_zip"]:
+            pre.append("Definition %sout : list str := %s." % (P, coq_list([coq_str(x) for x in w["_outside"]])))
         wcases, wkeys = [], []
         comps = r["res"]["components"]
 
@@ -1119,8 +1121,8 @@ def run(tier):
             obs = "%so%d" % (P, len(wcases))
             for fixed in (True, False):
                 if w["_zip"]:
-                    wcases.append("(%s, ((%s, ((%s, %s), (%sc%d, %sex))), %s))" % (coq_bool(fixed), coq_str(w["_zip"]),
-                                                                                 coq_str(m["selector"]), coq_bool(m["is_file"]), P, mi, P, obs))
+                    wcases.append("(%s, ((%s, ((%s, %s), (%sc%d, (%sex, %sout)))), %s))" % (
+                        coq_bool(fixed), coq_str(w["_zip"]), coq_str(m["selector"]), coq_bool(m["is_file"]), P, mi, P, P, obs))
                 else:
                     wcases.append("(%s, (((%s, %s), (%sc%d, %sex)), %s))" % (coq_bool(fixed), coq_str(m["selector"]),
                                                                             coq_bool(m["is_file"]), P, mi, P, obs))
@@ -1151,14 +1153,6 @@ def run(tier):
                 ents = c["entries"]
                 obs = "obs_entries %s" % coq_list([coq_core(e["type"], e["name"], e["selector"], e["host"], e["port"],
                                                             e["gplus"]) for e in ents])
-                if w["_zip"]:
-                    # observation (not a C09 matter: the five documented fields are unaffected): VFSZip looks selectors that
-                    # lie OUTSIDE the archive up INSIDE it after chopping len(zip selector) characters, so such links can be
-                    # "populated" from an unrelated archive member and get the Gopher+ flag
-                    for e in ents:
-                        if e["gplus"] and not (e["selector"] == w["_zip"] or e["selector"].startswith(w["_zip"] + "/")):
-                            stats["zip_outside_links_populated_from_archive"] = stats.get("zip_outside_links_populated_from_archive", 0) + 1
-                            chk.notes.setdefault("zip_outside_link_example", {"gophermap_selector": m["selector"], "entry": e})
                 # ---- oracle 1: exactly one entry per line
                 if len(ents) != len(lines):
                     hit("entry-count", dict(replay_base, what="number of entries differs from number of gophermap lines",
@@ -1434,9 +1428,9 @@ def run(tier):
         "well-formed (wf_gmline): one line, no white space at either end of any field or of an info line, 2..4 tab-separated fields, "
         "type + NON-EMPTY description, port empty or <= 4300 ASCII digits",
         "ZIP leg: the same gophermap generators packed into /T.zip and served through ZIP.ZIPHandler (handler list with "
-        "ZIP.ZIPHandler, enabled); the model's file system is VFSZip.exists as it is: len(zip selector) characters are chopped off "
-        "ANY link selector before the archive index is consulted (K09.zip_inner), so links to selectors outside the archive are "
-        "looked up inside it; only UTF-8 member names",
+        "ZIP.ZIPHandler, enabled); the model's file system is VFSZip.exists (/repo 91cede6): the archive and what lies below it are "
+        "looked up in the archive's index, every other link target in the surrounding scratch tree -- the same expectations as for "
+        "the extracted tree, modulo the selector prefix; only UTF-8 member names",
         "link targets: HTML HREF/ACTION, WML href, gemini/spartan URL are compared with the documented reading (URL after 'URL:', "
         "percent-decoded local path = selector, gopher://host:port/type+selector); 'no host, port 0' is not checked",
         "interleaving leg: handler instances of one process stepped by hand in every order of open/prepare/getdirlist (reference: "
